@@ -45,8 +45,8 @@ inductive Step (mi : Nat) : Fw σ → Fw σ → Prop
   | setCtrA (s : Fw σ) (v : Nat) : Step mi s (s.modRt mi (fun r => { r with counterA := v }))
   | setCtrB (s : Fw σ) (v : Nat) : Step mi s (s.modRt mi (fun r => { r with counterB := v }))
   | signal (s : Fw σ) (p : Option SignalTarget) : Step mi s { s with signalPending := p }
-  | zeroA (s : Fw σ) : Step mi s { s with zeroedA := true }
-  | zeroB (s : Fw σ) : Step mi s { s with zeroedB := true }
+  | zeroA (s : Fw σ) : Step mi s (s.modRt mi (fun r => { r with zeroedA := true }))
+  | zeroB (s : Fw σ) : Step mi s (s.modRt mi (fun r => { r with zeroedB := true }))
   | clear (s : Fw σ) (h : mi < s.actions.length) : Step mi s { s with actions := s.actions.set mi none }
   | sched (s : Fw σ) (m : Machine) (r : Runtime) (next : Nat) (act : Action) (tmo dur : Nat)
       (hm : s.machines[mi]? = some m) (hr : s.rt[mi]? = some r) (hlen : mi < s.actions.length)
@@ -106,8 +106,6 @@ namespace Fw
 @[simp] theorem push_rt (s : Fw σ) (e) : (s.push e).rt = s.rt := rfl
 @[simp] theorem push_actions (s : Fw σ) (e) : (s.push e).actions = s.actions := rfl
 @[simp] theorem push_signal (s : Fw σ) (e) : (s.push e).signalPending = s.signalPending := rfl
-@[simp] theorem push_zeroedA (s : Fw σ) (e) : (s.push e).zeroedA = s.zeroedA := rfl
-@[simp] theorem push_zeroedB (s : Fw σ) (e) : (s.push e).zeroedB = s.zeroedB := rfl
 @[simp] theorem push_rng (s : Fw σ) (e) : (s.push e).rng = s.rng := rfl
 @[simp] theorem push_fault (s : Fw σ) (e) : (s.push e).fault = s.fault := rfl
 
@@ -121,10 +119,6 @@ namespace Fw
   unfold withFault; split <;> rfl
 @[simp] theorem withFault_signal (s : Fw σ) (f) : (s.withFault f).signalPending = s.signalPending := by
   unfold withFault; split <;> rfl
-@[simp] theorem withFault_zeroedA (s : Fw σ) (f) : (s.withFault f).zeroedA = s.zeroedA := by
-  unfold withFault; split <;> rfl
-@[simp] theorem withFault_zeroedB (s : Fw σ) (f) : (s.withFault f).zeroedB = s.zeroedB := by
-  unfold withFault; split <;> rfl
 @[simp] theorem withFault_rng (s : Fw σ) (f) : (s.withFault f).rng = s.rng := by
   unfold withFault; split <;> rfl
 @[simp] theorem withFault_log (s : Fw σ) (f) : (s.withFault f).log = s.log := by
@@ -137,10 +131,6 @@ namespace Fw
 @[simp] theorem modRt_actions (s : Fw σ) (mi f) : (s.modRt mi f).actions = s.actions := by
   unfold modRt; split <;> simp
 @[simp] theorem modRt_signal (s : Fw σ) (mi f) : (s.modRt mi f).signalPending = s.signalPending := by
-  unfold modRt; split <;> simp
-@[simp] theorem modRt_zeroedA (s : Fw σ) (mi f) : (s.modRt mi f).zeroedA = s.zeroedA := by
-  unfold modRt; split <;> simp
-@[simp] theorem modRt_zeroedB (s : Fw σ) (mi f) : (s.modRt mi f).zeroedB = s.zeroedB := by
   unfold modRt; split <;> simp
 @[simp] theorem modRt_rng (s : Fw σ) (mi f) : (s.modRt mi f).rng = s.rng := by
   unfold modRt; split <;> simp
@@ -185,15 +175,13 @@ structure RngLogOnly (s t : Fw σ) : Prop where
   rt : t.rt = s.rt
   actions : t.actions = s.actions
   signal : t.signalPending = s.signalPending
-  zeroedA : t.zeroedA = s.zeroedA
-  zeroedB : t.zeroedB = s.zeroedB
   fault : t.fault = s.fault
 
-theorem RngLogOnly.refl (s : Fw σ) : RngLogOnly s s := ⟨rfl, rfl, rfl, rfl, rfl, rfl, rfl, rfl⟩
+theorem RngLogOnly.refl (s : Fw σ) : RngLogOnly s s := ⟨rfl, rfl, rfl, rfl, rfl, rfl⟩
 
 theorem RngLogOnly.trans {s t u : Fw σ} (h₁ : RngLogOnly s t) (h₂ : RngLogOnly t u) : RngLogOnly s u :=
   ⟨h₂.machines.trans h₁.machines, h₂.g.trans h₁.g, h₂.rt.trans h₁.rt, h₂.actions.trans h₁.actions,
-   h₂.signal.trans h₁.signal, h₂.zeroedA.trans h₁.zeroedA, h₂.zeroedB.trans h₁.zeroedB, h₂.fault.trans h₁.fault⟩
+   h₂.signal.trans h₁.signal, h₂.fault.trans h₁.fault⟩
 
 section
 variable (ρ : Oracle σ) (mi : Nat)
@@ -201,7 +189,7 @@ variable (ρ : Oracle σ) (mi : Nat)
 theorem distSample_spec (d : Dist) (s : Fw σ) :
     RngLogOnly s (distSample ρ d s).2 ∧ Reach mi s (distSample ρ d s).2 := by
   unfold distSample
-  refine ⟨⟨rfl, rfl, rfl, rfl, rfl, rfl, rfl, rfl⟩, ?_⟩
+  refine ⟨⟨rfl, rfl, rfl, rfl, rfl, rfl⟩, ?_⟩
   exact Reach.tail (Reach.single (Step.rng s _)) (Step.push _ _)
 
 theorem sampleTimeout_spec (a : Action) (s : Fw σ) :
@@ -273,8 +261,8 @@ theorem Step.frame {mi : Nat} {s t : Fw σ} (h : Step mi s t) : Frame mi s t := 
   | setCtrA => exact frame_modRt mi s _ (fun _ => rfl)
   | setCtrB => exact frame_modRt mi s _ (fun _ => rfl)
   | signal => exact ⟨rfl, rfl, rfl, rfl, fun _ _ => rfl, fun _ _ => rfl, rfl⟩
-  | zeroA => exact ⟨rfl, rfl, rfl, rfl, fun _ _ => rfl, fun _ _ => rfl, rfl⟩
-  | zeroB => exact ⟨rfl, rfl, rfl, rfl, fun _ _ => rfl, fun _ _ => rfl, rfl⟩
+  | zeroA => exact frame_modRt mi s _ (fun _ => rfl)
+  | zeroB => exact frame_modRt mi s _ (fun _ => rfl)
   | clear =>
     refine ⟨rfl, rfl, rfl, by simp, fun _ _ => rfl, fun j hj => ?_, rfl⟩
     simp [List.getElem?_set, Ne.symm hj]
@@ -388,49 +376,44 @@ theorem enterState_reach (mi : Nat) (m : Machine) (cur next : Nat) (s : Fw σ)
     · split
       · next a _ =>
         obtain ⟨_, hre⟩ := sampleLimit_spec ρ mi a (s.modRt mi (fun r => { r with currentState := next }))
-        exact Reach.tail (h1.trans hre) (Step.setLimit _ _)
-      · exact Reach.tail h1 (Step.setLimit _ _)
+        exact Reach.tail (Reach.tail (h1.trans hre) (Step.setLimit _ _)) (Step.push _ _)
+      · exact Reach.tail (Reach.tail h1 (Step.setLimit _ _)) (Step.push _ _)
   · exact Reach.refl s
+
+theorem counterOperand_spec (mi : Nat) (c : Counter) (other : Nat) (s : Fw σ) :
+    RngLogOnly s (counterOperand ρ c other s).2 ∧ Reach mi s (counterOperand ρ c other s).2 := by
+  unfold counterOperand
+  split
+  · exact ⟨RngLogOnly.refl s, Reach.refl s⟩
+  · exact sampleValue_spec ρ mi c s
+
+theorem storeCounterA_reach (mi : Nat) (oldA newA : Nat) (s : Fw σ) : Reach mi s (storeCounterA mi oldA newA s).1 := by
+  unfold storeCounterA
+  simp only
+  split
+  · exact Reach.tail (Reach.single (Step.setCtrA s _)) (Step.zeroA _)
+  · exact Reach.single (Step.setCtrA s _)
+
+theorem storeCounterB_reach (mi : Nat) (oldB newB : Nat) (s : Fw σ) : Reach mi s (storeCounterB mi oldB newB s).1 := by
+  unfold storeCounterB
+  simp only
+  split
+  · exact Reach.tail (Reach.single (Step.setCtrB s _)) (Step.zeroB _)
+  · exact Reach.single (Step.setCtrB s _)
 
 theorem applyCounterA_reach (mi : Nat) (c : Option Counter) (oldA oldB : Nat) (s : Fw σ) :
     Reach mi s (applyCounterA ρ mi c oldA oldB s).1 := by
   unfold applyCounterA
   cases c with
   | none => exact Reach.refl s
-  | some c =>
-    simp only
-    cases hc : c.copy with
-    | true =>
-      simp only [if_true]
-      split
-      · exact Reach.tail (Reach.single (Step.setCtrA s _)) (Step.zeroA _)
-      · exact Reach.single (Step.setCtrA s _)
-    | false =>
-      simp only [Bool.false_eq_true, if_false]
-      obtain ⟨_, hre⟩ := sampleValue_spec ρ mi c s
-      split
-      · exact Reach.tail (Reach.tail hre (Step.setCtrA _ _)) (Step.zeroA _)
-      · exact Reach.tail hre (Step.setCtrA _ _)
+  | some c => exact (counterOperand_spec ρ mi c oldB s).2.trans (storeCounterA_reach mi _ _ _)
 
 theorem applyCounterB_reach (mi : Nat) (c : Option Counter) (oldA oldB : Nat) (s : Fw σ) :
     Reach mi s (applyCounterB ρ mi c oldA oldB s).1 := by
   unfold applyCounterB
   cases c with
   | none => exact Reach.refl s
-  | some c =>
-    simp only
-    cases hc : c.copy with
-    | true =>
-      simp only [if_true]
-      split
-      · exact Reach.tail (Reach.single (Step.setCtrB s _)) (Step.zeroB _)
-      · exact Reach.single (Step.setCtrB s _)
-    | false =>
-      simp only [Bool.false_eq_true, if_false]
-      obtain ⟨_, hre⟩ := sampleValue_spec ρ mi c s
-      split
-      · exact Reach.tail (Reach.tail hre (Step.setCtrB _ _)) (Step.zeroB _)
-      · exact Reach.tail hre (Step.setCtrB _ _)
+  | some c => exact (counterOperand_spec ρ mi c oldA s).2.trans (storeCounterB_reach mi _ _ _)
 
 end
 
